@@ -2,6 +2,57 @@
 from checks.worldcheck import Spec
 
 PROP = "C11"
+
+
+def explicit(tier, seed):
+    """Response-lost failures of the checkpoint call (the backend committed the batch, the SDK saw an error) and batches filled
+    to the size limit while contexts are being started."""
+    import random
+
+    rng = random.Random(seed + 3)
+    i = 0
+    errs = [{"kind": "client", "status": 503, "code": "ServiceUnavailable", "message": "later"},
+            {"kind": "client", "status": 429, "code": "TooManyRequestsException", "message": "slow"},
+            {"kind": "client", "status": 500, "code": "ServiceException", "message": "boom"},
+            {"kind": "plain", "cls": "TimeoutError", "message": "read timeout"}]
+    shapes = [
+        [{"k": "step", "val": 1}, {"k": "step", "val": 2, "sem": "most"}, {"k": "wait", "s": 1}, {"k": "cb"}, {"k": "step", "val": 3}],
+        [{"k": "child", "body": [{"k": "step", "val": 1}, {"k": "wfc", "init": 0, "decisions": [("cont", 1), ("stop",)]}]}, {"k": "invoke", "fn": "f", "payload": 1, "cfg": {"timeout": 9}}],
+        [{"k": "par", "branches": [{"body": [{"k": "step", "val": b}, {"k": "step", "val": b + 1}]} for b in range(3)]}, {"k": "step", "val": 9}],
+    ]
+    for body in shapes:
+        for k in range(1, 8 if tier == "quick" else 12):
+            for err in (errs if tier != "quick" else rng.sample(errs, 2)):
+                yield {"label": "response-lost", "prog": {"body": body}, "prog_seed": 27000 + i, "pattern": {"p": "plain"}, "max_inv": 25,
+                       "faults": [{"match": {"op": "checkpoint", "n": k}, "err": err, "when": "after", "delay_ms": rng.choice([0, 10])}], "opts": {"hang_s": 3.0}}
+                i += 1
+    for j in range(10 if tier == "quick" else 80):
+        big = rng.choice([360, 370, 380]) * 1024
+        brs = [{"body": [{"k": "step", "script": [{"do": "ok", "big": big}]}]} for _ in range(2)]
+        brs += [{"body": [{"k": "child", "body": [{"k": "step", "val": 1}, {"k": "child", "body": [{"k": "step", "val": 2}]}]}, {"k": "step", "val": 3}]} for _ in range(rng.choice([1, 2, 3]))]
+        yield {"label": "batch-limit-while-starting-contexts", "prog": {"body": [{"k": "par", "branches": brs, "cfg": {"preset": "all_completed"}}]},
+               "prog_seed": 27500 + j, "pattern": {"p": "plain"}, "latency_ms": rng.choice([(5, 20), (20, 50)]),
+               "opts": {"perturb": {"p": 0.02, "seed": j}} if j % 2 else {}}
+
+
+def small_batch_cases(tier, seed):
+    import random
+
+    from dw.program import Gen
+
+    rng = random.Random(seed * 7 + 11)
+    for j in range(40 if tier == "quick" else 500):
+        prog = Gen(random.Random(seed * 1000 + j), kinds=["step", "step", "child", "child", "par", "map", "wfc", "wait"], max_ops=12, max_depth=4).program()
+        yield {"label": "small-batches", "prog": prog, "prog_seed": 27800 + j, "pattern": {"p": "plain"}, "latency_ms": rng.choice([None, (0, 5), (5, 20)]),
+               "opts": {"targeted": [{"kind": "batcher_config", "max_bytes": rng.randrange(300, 1500), "max_ops": rng.choice([2, 3, 5, 250]),
+                                      "window": rng.choice([0.05, 0.5, 1.0])}]}}
+
+
+def explicit_all(tier, seed):
+    yield from explicit(tier, seed)
+    yield from small_batch_cases(tier, seed)
+
+
 SPEC = Spec(
     PROP,
     level="fault_enumeration",
@@ -9,8 +60,11 @@ SPEC = Spec(
     "crash point of a small-program corpus (before/after each API call, at every probe event), random multi-crash, asynchronous "
     "SIGKILL, LINE-level yield injection}; a per-operation lifecycle automaton runs over the concatenated applied-update stream of "
     "all invocations. A class = (program shape hash, interruption pattern, event kind at which the crash landed); non-trivial = "
-    "at least one update was applied.",
+    "at least one update was applied. Additional slices: response-lost failures (503/429/500/timeout after the backend committed) at "
+    "every call position of three shapes; parallel 360-380 KB results while contexts are being started; random nested programs under "
+    "small random batcher configurations (300-1500 bytes, 2-250 operations).",
     deciding=lambda r: len(r["applied"]) > 0,
+    explicit=explicit_all,
 )
 cases = SPEC.cases
 run_case = SPEC.run_case
